@@ -98,6 +98,10 @@ pub enum TOp {
     /// opposite order of (just above) the position's current value: the reversal closes it and re-opens
     /// nothing, which leaves a stored record of size zero
     FlatReverse,
+    /// position-increasing order that takes the engine's open interest to exactly the vAMM's cap (0) or one unit above (1)
+    OpenToOiCap(u64),
+    /// position-increasing order that takes the trader's size to exactly the vAMM's holding cap (0) or one base unit above (1)
+    OpenToHoldCap(u64),
     /// deposit that brings the position's equity (margin - funding + spot PnL) to exactly -1 (0), 0 (1) or +1 (2)
     DepositToZero(u64),
     /// order on the side opposite to a stored size-zero record's direction, with a base limit on the wrong
@@ -821,6 +825,56 @@ fn realize(w: &World, r: &mut Rng, g: &mut GenCtx, plan: &Plan, vis: &[VInfo], p
                     draft(trader, Msg::Withdraw { v: v.id, amt: (fc / 2).max(1) })
                 }
                 (TOp::Close, _) => draft(trader, Msg::Close { v: v.id, lim: 0 }),
+                (TOp::OpenToOiCap(k), _) => {
+                    let cf: vamm::ConfigResponse = w.q(&v.addr, &vamm::QueryMsg::Config {})?;
+                    let cap = cf.open_interest_notional_cap.u128();
+                    let oi = w.engine_oi();
+                    if cap == 0 || oi > cap {
+                        return None;
+                    }
+                    let n = cap - oi + *k as u128;
+                    if n == 0 {
+                        return None;
+                    }
+                    let side = pos.map(|p| p.dir).unwrap_or(0);
+                    let mut dr = draft(trader, Msg::Open { v: v.id, side, margin: n, lev: d, lim: 0 });
+                    if w.cfg.native {
+                        dr.funds = open_funds(w, Some(v), pos, side, n, d);
+                    }
+                    dr
+                }
+                (TOp::OpenToHoldCap(k), _) => {
+                    let cf: vamm::ConfigResponse = w.q(&v.addr, &vamm::QueryMsg::Config {})?;
+                    let cap = cf.base_asset_holding_cap.u128();
+                    let cur = pos.map(|p| p.size).unwrap_or(0);
+                    if cap == 0 || cur > cap {
+                        return None;
+                    }
+                    let target = cap - cur + *k as u128;
+                    if target == 0 {
+                        return None;
+                    }
+                    let side = pos.map(|p| p.dir).unwrap_or(0);
+                    // the order is denominated in quote: look for the notional whose quoted base amount is the target
+                    let base_of = |q: u128| -> u128 {
+                        w.q::<Uint128, _>(&v.addr, &vamm::QueryMsg::InputAmount { direction: dirq(side), amount: Uint128::new(q) })
+                            .map(|x| x.u128())
+                            .unwrap_or(u128::MAX)
+                    };
+                    let (mut lo, mut hi) = (1u128, v.q.saturating_mul(4).max(2));
+                    while lo < hi {
+                        let mid = lo + (hi - lo) / 2;
+                        if base_of(mid) < target { lo = mid + 1 } else { hi = mid }
+                    }
+                    if base_of(lo) != target {
+                        return None;
+                    }
+                    let mut dr = draft(trader, Msg::Open { v: v.id, side, margin: lo, lev: d, lim: 0 });
+                    if w.cfg.native {
+                        dr.funds = open_funds(w, Some(v), pos, side, lo, d);
+                    }
+                    dr
+                }
                 (TOp::DepositToZero(k), Some(p)) if p.size != 0 => {
                     let val = value(p) as i128;
                     let pnl = if p.dir == 0 { val - p.notional as i128 } else { p.notional as i128 - val };
@@ -1231,6 +1285,14 @@ fn start_config(w: &World, r: &mut Rng, g: &mut GenCtx, vis: &[VInfo], ps: &[Pos
             // fee-paying trades while the addresses are re-wired
             g.plan.push_back(Plan::TraderOp { vi, who: Who::Id(trader), op: TOp::OpenSame, block: Blk::Free });
             g.plan.push_back(Plan::TraderOp { vi, who: Who::Id(trader), op: TOp::Reduce, block: Blk::Free });
+        }
+        if matches!(kind, CKind::VCaps) {
+            // the caps' boundaries: exactly at the cap is allowed, one unit above is not
+            let hold = r.chance(1, 2);
+            for k in [1u64, 0, 1] {
+                let op = if hold { TOp::OpenToHoldCap(k) } else { TOp::OpenToOiCap(k) };
+                g.plan.push_back(Plan::TraderOp { vi, who: Who::Id(trader), op, block: Blk::Free });
+            }
         }
         if matches!(kind, CKind::VCaps | CKind::WlToggle) || r.chance(1, 5) {
             g.plan.push_back(Plan::TraderOp { vi, who: Who::Id(trader), op: TOp::OpenSame, block: Blk::Free });
